@@ -26,7 +26,7 @@
  * ===================================================================================== */
 #define CX_PID		0
 #define CX_SERIAL	1
-#define CX_HOW		2	/* 0 not spawned, 1 stranger, 2 forked by the library */
+#define CX_HOW		2	/* 0 not spawned, 1 stranger, 2 forked by the library, 3 stranger being forked (no pid yet) */
 #define CX_DEATHOK	3	/* died while somebody was certainly listening for SIGCHLD */
 #define CX_DEAD		4
 #define CX_POPEN	5	/* popen object id + 1 */
@@ -105,6 +105,8 @@ static void obs_child_event(pid_t pid, int serial, int state, int status)
 		if (c >= 0) {
 			RO[c].xi[CX_PID] = pid;
 			RO[c].xi[CX_SERIAL] = serial;
+			if (RO[c].xi[CX_HOW] == 3)
+				RO[c].xi[CX_HOW] = 1;
 			pending_spawn[tid] = 0;
 		}
 		return;
@@ -201,7 +203,7 @@ static int wait_reg(struct rthr *th, int id)
 		return 0;
 	if (spawn && RO[c].xi[CX_HOW])
 		return 0;
-	if (!spawn && (!RO[c].xi[CX_HOW] || RO[c].xi[CX_DEAD]))
+	if (!spawn && (!RO[c].xi[CX_HOW] || RO[c].xi[CX_HOW] == 3 || RO[c].xi[CX_DEAD]))
 		return 0;
 	o->memsz = sizeof(struct iv_wait_interest);
 	o->mem = malloc(o->memsz);
@@ -485,6 +487,8 @@ static void popen_check_schedule(int id, int final)
 #define TX_STATE	1	/* 0 none, 1 created, 2 running, 3 exited */
 #define TX_GRACE	2
 
+static int pool_waiter[MAXOBJ];	/* a work function of this pool is waiting for its continuation to start */
+static int cont_started[MAXOBJ];	/* the item's work function has been entered (since it was last submitted) */
 static int worker_pool[SIMK_MAXT];	/* pool obj + 1 */
 static int worker_state[SIMK_MAXT];	/* 1 started, 2 stopped */
 static int ivthread_of[SIMK_MAXT];	/* ivthread obj + 1 */
@@ -602,6 +606,7 @@ static int item_submit(struct rthr *th, int id, int continuation)
 	it->work = h_work;
 	it->completion = h_done;
 	o->xi[IX_STATE] = 1;
+	cont_started[id] = 0;
 	o->xi[IX_INSUBMIT] = 1;
 	if (pool >= 0)
 		RO[pool].xi[QX_OUTSTANDING]++;
@@ -632,6 +637,7 @@ static void h_work(void *ck)
 	PROBE[PR_WORK_RUN]++;
 	simk_log(112, id, tid);
 	pool = (int)po->p[0];
+	cont_started[id] = 1;
 	if (o->xi[IX_STATE] != 1)
 		viol("C12.work_count", "work item obj %d: work function invoked in state %" PRId64 " (1 = submitted and not yet run)", id, o->xi[IX_STATE]);
 	if (pool >= 0) {
@@ -662,8 +668,16 @@ static void h_work(void *ck)
 		simk_yield();
 	if (po->p[2] > 0 && pool >= 0 && !RO[pool].xi[QX_PUT] && RO[pool].registered) {
 		int t = (int)po->p[2] - 1;
-		if (t >= 0 && t < PL->nobj && PL->obj[t].kind == K_ITEM && PL->obj[t].p[0] == pool)
-			item_submit(NULL, t, 1);
+		if (t >= 0 && t < PL->nobj && PL->obj[t].kind == K_ITEM && PL->obj[t].p[0] == pool &&
+		    item_submit(NULL, t, 1) && po->p[4] && PL->obj[pool].p[0] >= 2 && !pool_waiter[pool]) {
+			/* this work function does not return before its continuation has started to run in
+			 * another worker (one such dependency per pool at a time, and only where the pool may
+			 * have a second thread): the pool has to provide that worker, released or not */
+			pool_waiter[pool] = 1;
+			PROBE[PR_WORK_DEPENDS]++;
+			simk_flag_wait(&cont_started[t]);
+			pool_waiter[pool] = 0;
+		}
 	} else if (po->p[2] > 0 && pool < 0) {
 		/* no pool: the continuation is handed to the calling thread's own loop */
 		int t = (int)po->p[2] - 1;
@@ -881,7 +895,7 @@ int ext2_op(struct rthr *th, const struct pop *op)
 			return 0;
 		mk_script(id, &s);
 		pending_spawn[simk_self()] = id + 1;
-		RO[id].xi[CX_HOW] = 1;
+		RO[id].xi[CX_HOW] = 3;	/* the fork handlers yield: the child exists only once it has a pid */
 		rlog[id].n = 0;
 		simk_log(101, OP_SPAWN, id);
 		simk_spawn_stranger(&s);
@@ -903,7 +917,7 @@ int ext2_op(struct rthr *th, const struct pop *op)
 	}
 	case OP_TKILL:
 		/* somebody (any thread, the environment) signals a child directly */
-		if (id < 0 || id >= PL->nobj || PL->obj[id].kind != K_CHILD || !RO[id].xi[CX_HOW] || RO[id].xi[CX_REAPED_DEAD] || RO[id].xi[CX_POPEN])
+		if (id < 0 || id >= PL->nobj || PL->obj[id].kind != K_CHILD || !RO[id].xi[CX_HOW] || RO[id].xi[CX_HOW] == 3 || RO[id].xi[CX_REAPED_DEAD] || RO[id].xi[CX_POPEN])
 			return 0;
 		simk_log(101, OP_TKILL, id * 100 + op->a);
 		simk_env_kill((pid_t)RO[id].xi[CX_PID], (int)op->a);
